@@ -49,7 +49,7 @@ CLAIMED = {
               "(`break remove 0`, removal after exit, self-loop). Tie: real breakpoint histories on generated programs against the harness's own native "
               "instruction trace, decided in Coq by the trace-level spec."),
         ref="DESIGN.md section 5 C01",
-        technique="Coq proof (patch-machine invariant over an arbitrary native trace) + end-to-end differential correspondence against an independent single-step trace, evaluated by vm_compute",
+        technique="Coq proof (patch-machine invariant over an arbitrary native trace) + translator (Breakpoint::enable/disable regenerated as word functions and proved equal to the model's byte operations for every word, Ties/BpTie.v) + end-to-end differential correspondence against an independent single-step trace, evaluated by vm_compute",
         note=TB + " x86 int3 semantics at the level 'fetching 0xCC traps with pc+1'; breakpoints at instruction starts; single-threaded."),
     "C02": dict(
         text=("Theorems (Coq): the executed instruction sequence at every prompt is a prefix of the native trace (C02_transparent_partial), stepping over a "
@@ -58,7 +58,7 @@ CLAIMED = {
               "witness. Tie: after every command of real histories the program's executable mapping is compared byte by byte with the ELF file (difference = the "
               "user's breakpoints + the entry point) and output/exit status with a native run."),
         ref="DESIGN.md section 5 C02",
-        technique="Coq proof (patch-machine invariant) + end-to-end byte-level comparison of /proc/<pid>/mem with the ELF image after every command",
+        technique="Coq proof (patch-machine invariant) + translator (Breakpoint::enable/disable word functions, Ties/BpTie.v) + end-to-end byte-level comparison of /proc/<pid>/mem with the ELF image after every command",
         note=TB + " step*/call/watch commands are covered by the C03/C16/C14 checks, not by this leg yet."),
     "C12": dict(
         text=("Theorems (Coq, any request sequence, any handler scripts, any schedule of the forwarder threads): with sequence numbers taken under the transport "
@@ -102,7 +102,7 @@ CLAIMED.update({
               "cyclic parents) stated with witnesses; the reachable ones are known findings. Tie: real variable rendering of generated values (std "
               "collections of many shapes and sizes) against the program's own Debug output and raw memory, decided in Coq."),
         ref="DESIGN.md section 5 C06 and section 11",
-        technique="Coq proof (container walks as functions over a byte memory; induction over buckets/nodes/ring positions) + differential correspondence (unit on synthetic memory images, end-to-end on generated programs) evaluated by vm_compute",
+        technique="Coq proof (container walks as functions over a byte memory; induction over buckets/nodes/ring positions) + translator (LEN_GUARD / CAP_GUARD, Ties/DecodeTie.v) + differential correspondence (unit on synthetic memory images, end-to-end on generated programs) evaluated by vm_compute",
         note=TB + " the std layout facts (field names/offsets from DWARF) are inputs of the model; only the collections named here are modelled."),
     "C07": dict(
         text=("Theorems (Coq, all expression trees / all inputs): printing a well-formed DQE and parsing it back returns the same tree (C07_parse_print_wf, "
@@ -139,7 +139,7 @@ CLAIMED.update({
               "leaves it behind. Tie: the full grid launched/attached x single/multi-threaded x stop kind x ending, a stress tail under CPU load, restart "
               "histories on generated programs; the world is inspected from outside (/proc, own ptrace attach, ELF comparison, native exit status)."),
         ref="DESIGN.md section 5 C11 and section 11",
-        technique="Coq proof (patch machine + process life-cycle state machine) + end-to-end inspection of the real world state after every ending; restart stops decided in Coq by vm_compute",
+        technique="Coq proof (patch machine + process life-cycle state machine) + translator (Breakpoint::enable/disable word functions, Ties/BpTie.v) + end-to-end inspection of the real world state after every ending; restart stops decided in Coq by vm_compute",
         note=TB + " process life cycle (kill/wait/detach effects) is an abstract state machine validated by the e2e leg only."),
     "C13": dict(
         text=("Theorems (Coq, any sequence of setBreakpoints / setFunctionBreakpoints / setInstructionBreakpoints requests): after each request the "
@@ -159,7 +159,7 @@ CLAIMED.update({
               "Stated refutations: FP state, dealloc error leak, stale cache. Tie: real injected calls on generated functions (argument counts, kinds, "
               "callee that clobbers registers / raises signals), registers and stack compared before/after through ptrace, decided in Coq."),
         ref="DESIGN.md section 5 C16 and section 11",
-        technique="Coq proof (call-injection sequence as a state transformer over registers/memory) + end-to-end differential correspondence evaluated by vm_compute",
+        technique="Coq proof (call-injection sequence as a state transformer over registers/memory) + translator (argument-register order, syscall numbers and instruction word, Ties/CallTie.v) + end-to-end differential correspondence evaluated by vm_compute",
         note=TB + " the callee is an arbitrary function of the machine state in the theorems; x87/SSE state is outside the model except for the stated refutation."),
     "C18": dict(
         text=("Theorems (Coq, any mapping table): global<->relocated address conversion is exact for PIE and non-PIE images and every shared object "
